@@ -20,9 +20,24 @@ import (
 const (
 	verifDir = "/verif"
 	specDir  = "/verif/spec"
-	repoDir  = "/repo"
 	tlaJars  = "/opt/veriftools/tla/tla2tools.jar:/opt/veriftools/tla/CommunityModules-deps.jar"
 )
+
+// repoDir is the tree under test: /repo for every registered command. The
+// seeded-change sweep (seeded/psweep.sh) points it at a scratch worktree that
+// carries one seeded change, and outDir at a scratch directory, so that many
+// changes can be tried at once without touching /repo or /verif/evidence.
+var (
+	repoDir = envOr("VERIF_REPO", "/repo")
+	outDir  = envOr("VERIF_OUT", verifDir)
+)
+
+func envOr(k, d string) string {
+	if v := os.Getenv(k); v != "" {
+		return v
+	}
+	return d
+}
 
 // ---------------------------------------------------------------------------
 // Run context: one per invocation of a check.
@@ -189,9 +204,9 @@ func (c *Ctx) finish() {
 	if len(c.Known) > 0 {
 		ev["known_findings_matched"] = c.Known
 	}
-	os.MkdirAll(filepath.Join(verifDir, "evidence"), 0o755)
+	os.MkdirAll(filepath.Join(outDir, "evidence"), 0o755)
 	b, _ := json.MarshalIndent(ev, "", " ")
-	if err := os.WriteFile(filepath.Join(verifDir, "evidence", c.ID+".json"), append(b, '\n'), 0o644); err != nil {
+	if err := os.WriteFile(filepath.Join(outDir, "evidence", c.ID+".json"), append(b, '\n'), 0o644); err != nil {
 		c.die("write evidence: %v", err)
 	}
 	sort.Strings(c.Known)
@@ -203,7 +218,7 @@ func (c *Ctx) finish() {
 		fmt.Printf("OK property=%s tier=%s seed=%d wall=%.1fs\n", c.ID, c.Tier, c.Seed, wall)
 		os.Exit(0)
 	}
-	dir := filepath.Join(verifDir, "replays", c.ID)
+	dir := filepath.Join(outDir, "replays", c.ID)
 	os.MkdirAll(dir, 0o755)
 	for i, v := range c.Violation {
 		p := filepath.Join(dir, fmt.Sprintf("%s-%d-%d.json", c.Tier, c.Seed, i))
